@@ -145,7 +145,7 @@ def run(P, R, tier):
     pr = P.func('spatialpandas.io.parquet', '_perform_read_parquet_dask')
     okd = False
     for lp in astq.own_nodes(pr, ast.For):
-        if isinstance(lp.iter, ast.Name) and lp.iter.id == 'datasets':
+        if isinstance(lp.iter, ast.Name):
             srt = [c for c in ast.walk(lp) if isinstance(c, ast.Call) and isinstance(c.func, ast.Name) and c.func.id == 'sorted' and 'natural_sort_key' in norm(c)]
             ext = [c for c in ast.walk(lp) if isinstance(c, ast.Call) and isinstance(c.func, ast.Attribute) and c.func.attr == 'extend']
             if srt and ext:
@@ -153,6 +153,11 @@ def run(P, R, tier):
     R.check(okd, 'C11.d', pr, None, 'pieces are natural-sorted inside each dataset and appended dataset by dataset (datasets keep the order given)',
             'pieces are not sorted per dataset with the natural key: several datasets read through a list are interleaved / part.10 precedes part.2', construct='per-dataset natural sort')
     # no global re-sort of the combined list afterwards
-    glob = [c for c in astq.own_calls(pr) if isinstance(c.func, ast.Name) and c.func.id == 'sorted' and c.args and norm(c.args[0]) == 'pieces']
-    glob += [c for c in astq.own_calls(pr) if isinstance(c.func, ast.Attribute) and c.func.attr == 'sort' and norm(c.func.value) == 'pieces']
+    plist = None
+    for lp in astq.own_nodes(pr, ast.For):
+        for c in ast.walk(lp):
+            if isinstance(c, ast.Call) and isinstance(c.func, ast.Attribute) and c.func.attr == 'extend' and isinstance(c.func.value, ast.Name) and 'sorted' in norm(lp) :
+                plist = c.func.value.id
+    glob = [c for c in astq.own_calls(pr) if isinstance(c.func, ast.Name) and c.func.id == 'sorted' and c.args and norm(c.args[0]) == plist]
+    glob += [c for c in astq.own_calls(pr) if isinstance(c.func, ast.Attribute) and c.func.attr == 'sort' and norm(c.func.value) == plist]
     R.check(not glob, 'C11.d', pr, glob[0] if glob else None, 'the combined piece list is not re-sorted across datasets', 'the combined piece list is re-sorted across datasets: datasets no longer come back in the order given')
